@@ -1009,7 +1009,13 @@ class Builder(object):
                     index +=1
 
                 elif connective == 'keep':
-                    keep = max(0, int(Convert2Num(tokens[index])))
+                    keep = Convert2Num(tokens[index])  # ValueError when not a number
+                    try:
+                        keep = max(0, int(keep))
+                    except (OverflowError, ValueError, TypeError):  # inf, nan, complex
+                        msg = "Error building %s. Bad keep count got %s." %\
+                              (command, tokens[index])
+                        raise excepting.ParseError(msg, tokens, index)
                     index +=1
 
                 elif connective == 'cycle':
@@ -2084,7 +2090,7 @@ class Builder(object):
             value =  abs(Convert2Num(tokens[index])) #convert text to number if valid format
             index +=1
 
-            if isinstance(value, str):
+            if isinstance(value, str) or value != value or value == float('inf'):
                 msg = "Error building %s. invalid repeat %s." %\
                       (command, value)
                 raise excepting.ParseError(msg, tokens, index)
